@@ -413,6 +413,14 @@ package db
 //@ requires wfname(str1, n1, o1, i1) && wfname(str2, n2, o2, i2)
 //@ ensures[range] 0 <= result && result <= len(str1)
 //@ ensures[boundary] (result == len(str1) && result == len(str2)) || (0 <= ga && ga <= n1 && ga <= n2 && o1[ga] == result && o2[ga] == result)
+// ... and it is the LONGEST such prefix: the labels that start at the result differ (in length or in a byte); in
+// particular two equal names have their full length in common, terminating root label included
+//@ ensures[maximal] result < len(str1) && result < len(str2) ==> str1[result] != str2[result] || exists(j, result + 1, result + 1 + str1[result], str1[j] != str2[j])
+//@ ensures[prefix] forall(j, 0, result, j < len(str2) && str1[j] == str2[j])
+//@ loop 0 invariant[prefix] 0 <= i && forall(j, 0, i, j < len(str2) && str1[j] == str2[j])
+//@ loop 1 invariant[sofar] match && forall(q, i + 1, j, str1[q] == str2[q])
+//@ after for#1 assert[mismatch] !match ==> exists(q, i + 1, i + 1 + str1[i], str1[q] != str2[q])
+//@ after for#1 assert[allmatch] match ==> forall(q, i + 1, i + 1 + str1[i], str1[q] == str2[q])
 //@ loop 0 invariant (i == len(str1) && i == len(str2)) || (0 <= i1[i] && i1[i] <= n1 && i1[i] <= n2 && o1[i1[i]] == i && o2[i1[i]] == i)
 //@ loop 1 invariant i + 1 <= j && j <= i + str1[i] + 1 && str1[i] == str2[i] && 0 <= i1[i] && i1[i] <= n1 && i1[i] <= n2 && o1[i1[i]] == i && o2[i1[i]] == i && i < len(str1) && i < len(str2)
 
@@ -443,8 +451,13 @@ package db
 
 // FindClosestKey / TryForEach: DB well-formedness assumption — a key that carries the resource-record
 // marker "\000o" is marker + reversed name + 2-byte location, i.e. at least 5 bytes long.
+// ghost trace of the closest-key probes: how many were made and the key of the last one
+//@ ghostvar probes int
+//@ ghostvar probeKey slice
 //@ func ClosestKeyFinder.FindClosestKey
 //@ trusted
+//@ updates probes, probeKey
+//@ ensures probes == old(probes) + 1 && probeKey == key
 //@ ensures err != nil ==> result0 == nil
 //@ ensures err == nil && len(result0) >= 2 && result0[0] == 0 && result0[1] == 111 ==> len(result0) >= 5
 // row callbacks work on the row they are given; they do not write to key buffers (assumed). Ghost trace of
@@ -492,7 +505,10 @@ package db
 
 //@ func sortedDataReader.TryForEach
 //@ flag skip frame
+//@ updates probes, probeKey, nlook, nlookGlobal, lookPrev, lookLast
 //@ requires r.closestKeyFinder != nil
+//@ ensures[probe] probes == old(probes) + 1 && probeKey == key
+//@ ensures[rows-only-on-hit] nlook == old(nlook) || (nlook == old(nlook) + 1 && lookLast == key && seqeq(foundKey, key))
 //@ ensures err == nil && len(foundKey) >= 2 && foundKey[0] == 0 && foundKey[1] == 111 ==> len(foundKey) >= 5
 
 // find (closest-key walk): index safety. Claimed: every access to the found key and to the reversed name.
@@ -504,7 +520,19 @@ package db
 //@ ghost n int, offs seq, idx seq, roffs seq, ridx seq
 //@ requires wfname(q, n, offs, idx) && revoffs(q, n, offs, roffs, ridx) && loc != nil && r.closestKeyFinder != nil
 //@ call reverseZoneName#0 ghost n = n; offs = offs; idx = idx; roffs = roffs; ridx = ridx
+//@ updates probes, probeKey, nlook, nlookGlobal, lookPrev, lookLast
+// Which keys one round of the walk probes (C01/C02/C04): first the current name with the CLIENT's location; and
+// whenever the client has a location and that probe came back with a key of the same name (whatever its location:
+// the client's own, or a foreign one that merely sorts before it), the name is probed again with the EMPTY location
+// -- records declared without a location are visible to every client. Rows are read only from a key that was
+// probed and found exactly (TryForEach). (That the two probe keys end in the client's / the empty location is not
+// claimed: it needs the index facts listed as unclaimed above.)
+//@ after sortedDataReader.TryForEach#0 let p1 = probes
+//@ after sortedDataReader.TryForEach#0 let sameName = len(key) == len(k) && forall(j, 0, len(key) - 2, key[j] == k[j])
+//@ after if#2 assert[second-probe] err == nil && sameName && len(key) >= 2 && !(loc.LocID[0] == 0 && loc.LocID[1] == 0) && EmptyLocation.LocID[0] == 0 && EmptyLocation.LocID[1] == 0 ==> probes == p1 + 1
+//@ after if#2 assert[no-other-probe] probes == p1 || probes == p1 + 1
 //@ loop 0 invariant 1 <= qLength && qLength <= len(reversedQName) + 1 && len(reversedQName) == len(q) && locationLength == 2 && domainNameStart == 2 && loc != nil
+//@ loop 0 invariant[buf] cap(key) == len(q) + 4 && fresh(key) && ref(key) != ref(reversedQName)
 
 // ---- C01: decoding a stored row -------------------------------------------------------------------------
 // row = type(2, big endian) marker(1) [location(2) iff marker is '>' or '+'] ttl(4) ttd(8) [weight(4) iff A/AAAA] rdata
